@@ -54,7 +54,14 @@ fn gen_item(rng: &mut Rng) -> Vec<u8> {
 }
 
 fn insert_somehow(rng: &mut Rng, s: &mut Setsum, item: &[u8]) {
-    if rng.chance(1, 2) || item.is_empty() {
+    if item.is_empty() && rng.chance(1, 2) {
+        // the empty item written as no piece at all, or as empty pieces: the same item
+        match rng.below(3) {
+            0 => s.insert_vectored(&[]),
+            1 => s.insert_vectored(&[&item[..]]),
+            _ => s.insert_vectored(&[&item[..], &item[..]]),
+        }
+    } else if rng.chance(1, 2) || item.is_empty() {
         s.insert(item);
     } else {
         // vectored, split at a random position (and sometimes at two)
@@ -310,9 +317,13 @@ pub fn run(args: &Args) {
         let mut rng = Rng::for_case(args.seed, 3, i);
         let (d, _) = gen_digest(&mut rng, true);
         let mut s: Vec<u8> = Setsum::from_digest(d).hexdigest().into_bytes();
-        let kind = rng.below(6);
+        let kind = rng.below(7);
         match kind {
             0 => {}
+            6 => {
+                // the digest as somebody else wrote it: columns that are not reduced
+                s = hex(&d).into_bytes();
+            }
             1 => {
                 for c in s.iter_mut() {
                     if rng.chance(1, 3) {
@@ -344,6 +355,12 @@ pub fn run(args: &Args) {
         rec.count(&format!("hex.kind{}", kind));
         let nt = Some(fnv(req.as_bytes()));
         match r {
+            Ok(Some(h)) if kind == 6 && h != Setsum::from_digest(d).hexdigest() => rec.case(
+                &req,
+                &h,
+                Verdict::Fail { class: "hexdigest-not-canonicalised".into(), detail: format!("from_hexdigest({}) gives {} but from_digest of the same bytes gives {}", hex(&s), h, Setsum::from_digest(d).hexdigest()) },
+                nt,
+            ),
             Ok(Some(h)) => rec.corr(&req, &h, nt),
             Ok(None) => rec.corr(&req, "none", nt),
             Err(m) => rec.case(&req, "panic", Verdict::Fail { class: "panic".into(), detail: m }, nt),
